@@ -155,6 +155,8 @@ impl VM {
                 .instruction_pointer();
 
             // If we have been told to stop, stop and return an error.
+            #[cfg(smlxl_storage_layout_extractor_verif)]
+            crate::verif_hooks::poll_site("vm.execute");
             if counter % poll_interval == 0 && self.watchdog.should_stop() {
                 Err(Error::StoppedByWatchdog).locate(instruction_pointer)?;
             }
